@@ -1,4 +1,5 @@
 import ActixNet.Lemmas.SrvInv
+import ActixNet.Lemmas.CounterRace
 /-!
 # C02 — per-worker concurrency never exceeds `max_concurrent_connections`
 
@@ -104,5 +105,16 @@ example : (∀ w, w < demoCfg.nIdx → inProgress (run demoCfg (init demoCfg [.t
   intro w hw
   have : w = 0 ∨ w = 1 := by simp [demoCfg] at hw; omega
   rcases this with rfl | rfl <;> decide
+
+
+/-- The accept thread's increments and the worker threads' decrements of one worker's counter are concurrent in the
+    real server.  Each is one atomic read-modify-write (T1), so an execution is an interleaving of whole steps; for
+    EVERY interleaving with as many decrements as increments the counter returns to its value: no update is lost,
+    which is what lets the sequential model of this file stand for the threaded code.  The engine's `k-race` op runs
+    the two real threads against each other (seed11 C03-22 made `inc` a load / store pair). -/
+theorem concurrent_counter_updates_not_lost (ops : List Bool) (v : Nat)
+    (hb : ops.count true = ops.count false) (hv : ops.count false ≤ v) :
+    Counter.applyOps v ops = v := Counter.interleaving_irrelevant ops v hb hv
+example : Counter.applyOps 3 [true, false, false, true, true, false] = 3 := by decide
 
 end ActixNet.C02
